@@ -10,7 +10,8 @@ PROPS["C05"] = dict(
          "same Locker is held for two leases undisturbed; handoff(first tenure ends at 5..110% of a renewal cycle after 0..2 renewals, the second "
          "tenure - same Locker or another provider's - starts at once): its record stays present and unexpired for three leases and a "
          "contender stays excluded; waithold(the next holder waited 0.3..2.5 leases in Lock() before it got the lock): its record is fresh - "
-         "present, unexpired, contender excluded for 2.5 leases. Batches of 4..8 scenarios run concurrently. lease 300 ms (quick) / 60 ms..1 s (thorough). "
+         "present, unexpired, contender excluded for 2.5 leases; bystander(lock A is unlocked while its renewal is in flight and 2-4 other locks of the "
+         "process are acquired in that window): the other locks stay held for three leases. Batches of 4..8 scenarios run concurrently. lease 300 ms (quick) / 60 ms..1 s (thorough). "
          "non-trivial = hold with >= 1 injected failure, death, handoff, waithold, or unlockrace whose renewal really was in flight; distinct = hash of the scenario",
     assumptions=["real clock: a verdict that depends on an upper time bound is confirmed by re-running the scenario with the lease doubled (twice) before it is "
                  "reported; lower bounds (acquired before the stored expiration, record after Unlock) are exact and reported at once",
